@@ -267,9 +267,36 @@ INDEPENDENT = [
 ]
 
 
+REJECT_CONFIGS = ["x64", "x64-w32", "x64-m51"]
+
+
+def rejecting(gt, fam_, env):
+    """True when, in every reference configuration, the matching comparisons are branched on and reject (G12)."""
+    seen = False
+    for (f, eng) in env:
+        for fn in f.fns.values():
+            if not re.fullmatch(fam_["fn"], norm_name(fn["name"])):
+                continue
+            labmap = {}
+            have = gates.gate_strings(eng.summary(fn), fam_["include_out"], eng.policy, fn, labmap=labmap)
+            if "field" in gt:
+                continue
+            v = gates.reject_verdicts(f, eng, fn, have, labmap, gates.subst_consts(f, fn, gt["src"]), {})
+            if not v or all(x[0] is None for x in v):
+                return False
+            if not any(x[0] for x in v):
+                return False
+            seen = True
+    return seen
+
+
 def main():
     f = facts.load("x64")
     eng = gates.GateEngine(f, gates.GatePolicy(f))
+    env = [(f, eng)]
+    for c in REJECT_CONFIGS[1:]:
+        fc = facts.load(c)
+        env.append((fc, gates.GateEngine(fc, gates.GatePolicy(fc))))
     out = []
     problems = 0
     for fam_ in F:
@@ -296,6 +323,8 @@ def main():
             # not depend on the backend); every other class just has to be present
             pinned = gt["src"].startswith("call:") and not gt["src"].endswith("@" + r"[A-Za-z0-9_:]+" + r"#\d+") and not gt["src"].endswith("@" + ANY + r"#\d+")
             d["min"] = mn if pinned else 1
+            if not gt["src"].startswith("call:") and rejecting(gt, fam_, env):
+                d["rejects"] = True
             gl.append(d)
         for fb in fam_["forbid"]:
             for fn in matched:
@@ -309,7 +338,7 @@ def main():
                "there (spec references in 'why'); 'min' = number of distinct matching check facts reaching the result on the "
                "reviewed tree.", functions=out, call_args=CALL_ARGS, independent=INDEPENDENT, failmask=FAILMASK, maskbytes=MASKBYTES)
     json.dump(tab, open(os.path.join(os.path.dirname(os.path.dirname(os.path.abspath(__file__))), "tables", "gates.json"), "w"), indent=1)
-    print("families", len(out), "gates", sum(len(x["gates"]) for x in out), "problems", problems)
+    print("families", len(out), "gates", sum(len(x["gates"]) for x in out), "rejecting", sum(1 for x in out for y in x["gates"] if y.get("rejects")), "problems", problems)
 
 
 if __name__ == "__main__":
